@@ -258,7 +258,7 @@ impl ThreadCtx<'_> {
         let req = make_request(&mut self.r, id);
         let body_len = req.body.len().map_or("none".to_string(), |n| n.to_string());
         let reqv = json!({"method":format!("\"{}\"", req.method()),"path":format!("\"{}\"", req.url().path()),"id":req.id.to_string(),"bodyLen":body_len});
-        let kind = self.r.gen_range(0..6);
+        let kind = self.r.gen_range(0..12);
         let inner = self.r.gen_range(0..4);
         let mut start_end = 0u64;
         let mut outcome = json!(null);
@@ -306,9 +306,41 @@ impl ThreadCtx<'_> {
                         outcome = json!({"k":"Err","resp":no_resp,"hasResp":false,"hasMsg":true,"msg":format!("\"srv{id}\""),"hasBt":true,"tags":[]});
                         Err(Error::server_error(format!("srv{id}")))
                     }
-                    _ => {
+                    5 => {
                         outcome = json!({"k":"Err","resp":no_resp,"hasResp":false,"hasMsg":false,"msg":"","hasBt":false,"tags":[]});
                         Err(Error::new())
+                    }
+                    // every other route to an Error: the conversions, a message wrapped twice, a server error that brings its own response
+                    6 => {
+                        let r = Response::text(403, "f".repeat((id % 9) as usize));
+                        outcome = json!({"k":"Err","resp":rj(&r),"hasResp":true,"hasMsg":false,"msg":"","hasBt":false,"tags":[]});
+                        Err(r.into())
+                    }
+                    7 => {
+                        let m = format!("str{id}");
+                        outcome = json!({"k":"Err","resp":no_resp,"hasResp":false,"hasMsg":true,"msg":format!("\"{m}\""),"hasBt":true,"tags":[]});
+                        Err(m.as_str().into())
+                    }
+                    8 => {
+                        let m = format!("string{id}");
+                        outcome = json!({"k":"Err","resp":no_resp,"hasResp":false,"hasMsg":true,"msg":format!("\"{m}\""),"hasBt":true,"tags":[]});
+                        Err(m.into())
+                    }
+                    9 => {
+                        let e = std::io::Error::new(std::io::ErrorKind::Other, format!("io{id}"));
+                        outcome = json!({"k":"Err","resp":no_resp,"hasResp":false,"hasMsg":true,"msg":format!("\"{e}\""),"hasBt":true,"tags":[]});
+                        Err(e.into())
+                    }
+                    10 => {
+                        outcome = json!({"k":"Err","resp":no_resp,"hasResp":false,"hasMsg":true,"msg":format!("\"outer{id}: inner{id}\""),"hasBt":false,
+                                         "tags":[{"n":"et","v":"-3"}]});
+                        Err(Error::new().with_msg(format!("inner{id}")).with_tag("et", -3i32).with_msg(format!("outer{id}")))
+                    }
+                    _ => {
+                        let r = Response::text(503, "busy");
+                        outcome = json!({"k":"Err","resp":rj(&r),"hasResp":true,"hasMsg":true,"msg":format!("\"m{id}\""),"hasBt":true,
+                                         "tags":[{"n":"et","v":"true"}]});
+                        Err(Error::server_error(format!("m{id}")).with_response(r).with_tag("et", true))
                     }
                 };
                 start_end = stamp();
